@@ -12,6 +12,7 @@ import (
 	"strings"
 	"time"
 
+	"github.com/XiaoMi/Gaea/backend"
 	"github.com/XiaoMi/Gaea/util"
 	"github.com/XiaoMi/Gaea/verifshim/vclock"
 	"github.com/XiaoMi/Gaea/verifshim/vsched"
@@ -45,6 +46,7 @@ type scenario struct {
 	Threads []string
 	Faulty  bool // factory may fail (environment choice)
 	Pre     int  // resources taken before the threads start (returned by op R)
+	Backend bool // drive backend.connectionPoolImpl / pooledConnectImpl (Get, Recycle, SetCapacity, Close) instead of util.ResourcePool
 }
 
 type world struct {
@@ -64,6 +66,9 @@ type world struct {
 	// the real Close stops the idle and scale-in timers first, and timer.Stop waits for a
 	// running callback: model that with one lock per timer and a stopped flag
 	idleBusy, capBusy, timersStopped bool
+	// backend layer
+	cp    backend.ConnectionPool
+	bheld map[backend.PooledConnect]string
 }
 
 var w *world
@@ -74,7 +79,15 @@ func (w *world) fail(format string, a ...interface{}) {
 
 func setup(sc scenario) {
 	vclock.Enable(time.Unix(1700000000, 0))
-	w = &world{sc: sc, held: map[*res]string{}}
+	w = &world{sc: sc, held: map[*res]string{}, bheld: map[backend.PooledConnect]string{}}
+	if sc.Backend {
+		cp, err := backend.VerifNewPool(sc.Cap, sc.Max)
+		if err != nil {
+			ev.Fatalf("VerifNewPool: %v", err)
+		}
+		w.cp = cp
+		return
+	}
 	ww := w
 	factory := func() (util.Resource, error) {
 		if ww.failRemaining > 0 {
@@ -193,7 +206,89 @@ func runThread(w *world, name, prog string) {
 	}
 }
 
+// runBackendThread drives the exported ConnectionPool / PooledConnect API.
+func runBackendThread(w *world, name, prog string) {
+	var mine []backend.PooledConnect
+	for i := 0; i < len(prog); i++ {
+		switch prog[i] {
+		case 'G':
+			pc, err := w.cp.Get(context.Background())
+			if err != nil {
+				w.getErrs++
+				w.outcome = append(w.outcome, name+":Gerr")
+				continue
+			}
+			if pc.IsClosed() {
+				w.fail("Get returned a closed connection")
+			}
+			if h, dup := w.bheld[pc]; dup {
+				w.fail("connection handed to %s while held by %s", name, h)
+			}
+			w.bheld[pc] = name
+			w.nHeld++
+			if w.nHeld > w.sc.Max {
+				w.fail("%d resources handed out, max capacity %d", w.nHeld, w.sc.Max)
+			}
+			mine = append(mine, pc)
+		case 'P', 'N':
+			if len(mine) == 0 {
+				continue
+			}
+			pc := mine[0]
+			mine = mine[1:]
+			delete(w.bheld, pc)
+			w.nHeld--
+			if prog[i] == 'N' {
+				pc.Close() // a broken connection is discarded through the same Recycle call
+			}
+			pc.Recycle()
+		case 'C':
+			i++
+			w.cp.SetCapacity(int(prog[i] - '0'))
+		case 'X':
+			w.cp.Close()
+		}
+	}
+	for _, pc := range mine {
+		delete(w.bheld, pc)
+		w.nHeld--
+		pc.Recycle()
+	}
+}
+
+func bodyBackend() {
+	ww := w
+	for i, prog := range ww.sc.Threads {
+		name := fmt.Sprintf("T%d", i)
+		p := prog
+		vsched.GoNamed(name, func() { runBackendThread(ww, name, p) })
+	}
+	vsched.WaitOthers()
+	capNow, inUse, avail, idle, ok := backend.VerifPoolCounters(ww.cp)
+	if !ok {
+		ww.finalMsg = fmt.Sprintf("closed geterr=%d", ww.getErrs)
+		return
+	}
+	if inUse != 0 {
+		ww.fail("quiescent: inUse=%d although every holder returned", inUse)
+	}
+	if idle+inUse != capNow {
+		ww.fail("quiescent: idle(%d)+inUse(%d) != capacity(%d)", idle, inUse, capNow)
+	}
+	if avail+inUse != capNow {
+		ww.fail("quiescent: available(%d)+inUse(%d) != capacity(%d)", avail, inUse, capNow)
+	}
+	if capNow > int64(ww.sc.Max) {
+		ww.fail("quiescent: capacity %d exceeds max capacity %d", capNow, ww.sc.Max)
+	}
+	ww.finalMsg = fmt.Sprintf("cap=%d avail=%d idle=%d geterr=%d", capNow, avail, idle, ww.getErrs)
+}
+
 func body() {
+	if w.sc.Backend {
+		bodyBackend()
+		return
+	}
 	ww := w
 	for i, prog := range ww.sc.Threads {
 		name := fmt.Sprintf("T%d", i)
@@ -237,6 +332,12 @@ func scenarios(r *ev.Run) []scenario {
 		{Name: "close-scaleout", Cap: 1, Max: 2, Pre: 1, Threads: []string{"GP", "X", "R"}},
 		{Name: "close-setcap", Cap: 1, Max: 2, Threads: []string{"GP", "X", "C2"}},
 		{Name: "faulty-factory", Cap: 1, Max: 2, Faulty: true, Threads: []string{"GP", "GP"}},
+		// backend.connectionPoolImpl + pooledConnectImpl on top of the resource pool
+		{Name: "backend-2clients", Backend: true, Cap: 1, Max: 2, Threads: []string{"GP", "GP"}},
+		{Name: "backend-discard", Backend: true, Cap: 1, Max: 2, Threads: []string{"GN", "GP"}},
+		{Name: "backend-close-while-held", Backend: true, Cap: 1, Max: 2, Threads: []string{"GP", "X"}},
+		{Name: "backend-close-2clients", Backend: true, Cap: 1, Max: 2, Threads: []string{"GP", "X", "GP"}},
+		{Name: "backend-setcap", Backend: true, Cap: 1, Max: 2, Threads: []string{"GP", "C2", "GP"}},
 	}
 	if r.Thorough() {
 		s = append(s,
@@ -270,6 +371,9 @@ func opsOf(sc scenario) string {
 	}
 	if sc.Faulty {
 		set["faultyfactory"] = true
+	}
+	if sc.Backend {
+		set["backend"] = true
 	}
 	ks := []string{"get"}
 	for k := range set {
